@@ -244,7 +244,7 @@ def judge(rep, behaviours, trace):
     return res
 
 
-FAMILIES_QUICK = [('MC_MetadataFSM.cfg', 'Sim_MetadataFSM.cfg', 260), ('MC_MetadataFSM_groups.cfg', 'Sim_MetadataFSM_groups.cfg', 260)]
+FAMILIES_QUICK = [('MC_MetadataFSM.cfg', 'Sim_MetadataFSM.cfg', 200), ('MC_MetadataFSM_groups.cfg', 'Sim_MetadataFSM_groups.cfg', 200)]
 FAMILIES_THOROUGH = [('MC_MetadataFSM_thorough.cfg', 'Sim_MetadataFSM.cfg', 1200),
                      ('MC_MetadataFSM_groups_thorough.cfg', 'Sim_MetadataFSM_groups.cfg', 1200)]
 
